@@ -59,26 +59,30 @@ fn do_write(log: &mut Log, recs: &[Rec], via_setters: bool, quoted: bool) -> Opt
     out
 }
 
+fn read_items<R: std::io::Read>(rd: &mut Reader<R>) -> Vec<Value> {
+    let mut items = vec![];
+    for res in rd.records() {
+        match res {
+            Ok(rec) => {
+                let mut aux = vec![];
+                let mut i = 3;
+                while let Some(a) = rec.aux(i) {
+                    aux.push(bytes(a.as_bytes()));
+                    i += 1;
+                }
+                items.push(json!({"ok": 1, "chrom": bytes(rec.chrom().as_bytes()),
+                    "start": dec(rec.start()), "end": dec(rec.end()), "aux": Value::Array(aux)}));
+            }
+            Err(_) => items.push(json!({"ok": 0})),
+        }
+    }
+    items
+}
+
 fn do_read(log: &mut Log, data: &[u8], mode: &str, fault: &str) {
     log.call("read", mode_json(mode, data, fault), || {
         let mut rd = Reader::new(data);
-        let mut items = vec![];
-        for res in rd.records() {
-            match res {
-                Ok(rec) => {
-                    let mut aux = vec![];
-                    let mut i = 3;
-                    while let Some(a) = rec.aux(i) {
-                        aux.push(bytes(a.as_bytes()));
-                        i += 1;
-                    }
-                    items.push(json!({"ok": 1, "chrom": bytes(rec.chrom().as_bytes()),
-                        "start": dec(rec.start()), "end": dec(rec.end()), "aux": Value::Array(aux)}));
-                }
-                Err(_) => items.push(json!({"ok": 0})),
-            }
-        }
-        json!({"recs": Value::Array(items)})
+        json!({"recs": Value::Array(read_items(&mut rd))})
     });
 }
 
@@ -152,6 +156,51 @@ pub fn drive(log: &mut Log) {
         let bad = wild_fault(&mut rng, &data);
         log.oblige("wild");
         do_read(log, &bad, "wild", "wild");
+    }
+
+    // the file based API: the abstract state of a path is the file content. Write R1 with
+    // Writer::to_file, read with Reader::from_file, write a SHORTER R2 to the same path, read:
+    // exactly R2; then an empty list, then a longer one.
+    for _ in 0..log.opts.n(60, 600) {
+        case += 1;
+        if !log.mine(case) {
+            continue;
+        }
+        let mut rng = Rng::new(seed, 115, case);
+        let k = rng.range(0, 5) as usize;
+        if !log.begin("file", json!({"k": k})) {
+            continue;
+        }
+        let dir = std::path::Path::new(&log.opts.out).parent().map(|p| p.to_path_buf()).unwrap_or_default();
+        let path = dir.join(format!("bed-{}-{}-{}.tmp", log.opts.shard, seed, case));
+        let r1: Vec<Rec> = (0..rng.range(3, 5)).map(|_| rand_rec(&mut rng, k, log)).collect();
+        let r2: Vec<Rec> = (0..rng.range(1, 2)).map(|_| rand_rec(&mut rng, k, log)).collect();
+        let r4: Vec<Rec> = (0..rng.range(2, 4)).map(|_| rand_rec(&mut rng, k, log)).collect();
+        for (step, recs) in [r1, r2, vec![], r4].iter().enumerate() {
+            log.call("write_file", json!({"recs": Value::Array(recs.iter().map(rec_json).collect()), "q": 0, "pid": 1}), || {
+                let mut errs = 0;
+                match Writer::to_file(&path) {
+                    Ok(mut w) => {
+                        for r in recs {
+                            if w.write(&to_record(r, false)).is_err() {
+                                errs += 1;
+                            }
+                        }
+                    }
+                    Err(_) => errs = -1,
+                }
+                let content = std::fs::read(&path).unwrap_or_default();
+                json!({"bytes": bytes(&content), "errs": errs})
+            });
+            log.call("read_file", json!({"pid": 1}), || match Reader::from_file(&path) {
+                Ok(mut rd) => json!({"recs": Value::Array(read_items(&mut rd)), "open": 1}),
+                Err(_) => json!({"recs": [], "open": 0}),
+            });
+            if step == 1 {
+                log.oblige("bed_file_rewrite_shorter");
+            }
+        }
+        let _ = std::fs::remove_file(&path);
     }
 
     // columns containing double quotes (first position, fully quoted, inner, trailing): the csv
